@@ -50,7 +50,7 @@ try:
                         pass
                     break
             res["checks"][p] = {"exit": r.returncode, "lines": [l[:300] for l in lines], "wall_s": round(time.time() - t0, 1),
-                                "first_replay": rep, "tail": (r.stdout + r.stderr)[-600:] if r.returncode not in (0, 1) else ""}
+                                "first_replay": rep, "tail": (r.stdout + r.stderr)[-1500:] if r.returncode not in (0, 1) or (r.returncode == 1 and not lines) else ""}
 finally:
     subprocess.run(["git", "-C", "/repo", "worktree", "remove", "--force", wt], stderr=subprocess.DEVNULL)
     shutil.rmtree(vc, ignore_errors=True)
